@@ -203,7 +203,7 @@ func (runInfo *runInfoStruct) runVarStmt(stmt *ast.VarStmt) {
 		if env, ok := runInfo.rv.Interface().(*env.Env); ok && env != nil {
 			rvs[i] = reflect.ValueOf(env.DeepCopy())
 		} else {
-			rvs[i] = runInfo.rv
+			rvs[i] = detachValue(runInfo.rv)
 		}
 	}
 
@@ -251,7 +251,7 @@ func (runInfo *runInfoStruct) runLetsStmt(stmt *ast.LetsStmt) {
 		if env, ok := runInfo.rv.Interface().(*env.Env); ok && env != nil {
 			rvs[i] = reflect.ValueOf(env.DeepCopy())
 		} else {
-			rvs[i] = runInfo.rv
+			rvs[i] = detachValue(runInfo.rv)
 		}
 	}
 
@@ -514,7 +514,7 @@ func (runInfo *runInfoStruct) runForSliceStmt(stmt *ast.ForStmt, value reflect.V
 		if iv.Kind() == reflect.Ptr && !iv.IsNil() {
 			iv = iv.Elem()
 		}
-		runInfo.env.DefineValue(stmt.Vars[0], iv)
+		runInfo.env.DefineValue(stmt.Vars[0], detachValue(iv))
 
 		runInfo.stmt = stmt.Stmt
 		runInfo.runSingleStmt()
@@ -712,6 +712,25 @@ func (runInfo *runInfoStruct) runReturnStmt(stmt *ast.ReturnStmt) {
 		rvs[i] = runInfo.rv.Interface()
 	}
 	runInfo.rv = reflect.ValueOf(rvs)
+}
+
+// detachValue copies an addressable value of a basic kind (a number, string or bool read from an element
+// of a typed slice, a struct field or another variable, or an interface slot of a list) so that what an
+// assignment holds or binds no longer changes with the place it was read from.
+func detachValue(rv reflect.Value) reflect.Value {
+	if !rv.IsValid() || !rv.CanAddr() {
+		return rv
+	}
+	switch rv.Kind() {
+	case reflect.Bool, reflect.String, reflect.Interface,
+		reflect.Int, reflect.Int8, reflect.Int16, reflect.Int32, reflect.Int64,
+		reflect.Uint, reflect.Uint8, reflect.Uint16, reflect.Uint32, reflect.Uint64, reflect.Uintptr,
+		reflect.Float32, reflect.Float64, reflect.Complex64, reflect.Complex128:
+		nv := reflect.New(rv.Type()).Elem()
+		nv.Set(rv)
+		return nv
+	}
+	return rv
 }
 
 // runModuleStmt executes a module statement.
